@@ -96,7 +96,14 @@ Qed.
 Theorem rstep_sound pol r x r' : rstep pol r = Some (x, r') ->
   (exists a, mixed_step (r_l r) a = Some (r_l r')) \/ r_l r' = r_l r.
 Proof.
-  unfold rstep. pose proof (ctl_move_sound r) as Hc.
+  assert (H0 : forall r0, rstep0 pol r = Some (x, r0) ->
+               (exists a, mixed_step (r_l r) a = Some (r_l r0)) \/ r_l r0 = r_l r).
+  2:{ unfold rstep. destruct (rstep0 pol r) as [[x0 r0]|] eqn:E0; [|discriminate].
+      intros H; injection H as Hx Hr. subst x0.
+      assert (El : r_l r' = r_l r0) by (rewrite <- Hr; destruct (ctl_alt r); reflexivity).
+      rewrite El. apply H0. reflexivity. }
+  clear r'. intros r'.
+  unfold rstep0. pose proof (ctl_move_sound r) as Hc.
   destruct (step_now (r_l r)) as [l1|] eqn:Hs.
   - destruct (step_now_sched _ _ Hs) as [a Ha].
     destruct (ctl_move r) as [[y r1]|].
@@ -139,6 +146,16 @@ Proof.
     - destruct (close_ok oc (r_l r1)); [eapply IH; exact H1|discriminate].
     - destruct (newest_ok obs (r_l r1)); [eapply IH; exact H1|discriminate]. }
   pose proof (ctl_move_sound r) as Hc.
+  match type of H with match ?e with _ => _ end = _ => destruct e as [xa|] eqn:Halt end.
+  { inversion H; subst xa. destruct (ctl_alt r) as [ra|] eqn:Era; [|discriminate].
+    destruct (Hgo _ Halt) as [sigma Hsig]. exists sigma.
+    assert (El : r_l ra = r_l r).
+    { unfold ctl_alt in Era. destruct (r_ph r); try discriminate.
+      repeat match type of Era with
+             | context [match ?e with _ => _ end] => destruct e; try discriminate
+             | context [if ?e then _ else _] => destruct e; try discriminate
+             end. inversion Era. reflexivity. }
+    rewrite <- El. exact Hsig. }
   destruct (step_now (r_l r)) as [l1|] eqn:Hs.
   - destruct (step_now_sched _ _ Hs) as [a Ha].
     destruct (ctl_move r) as [[y r1]|].
